@@ -22,6 +22,11 @@ func runC05(p *Prog, r *Report) {
 	c05Combinators(p, r)
 	c05Relays(p, r)
 	c05DeclaredHeadrooms(p, r)
+	// R8: the size limit follows the client's address (shared analysis with C11-R6)
+	r.Rule("C05-R8", "the packet size limit follows the client: in the session relays' downlinks, when the client's address record changes, everything computed from the address when the session started (the maximum packet size for the address family) is recomputed on every path through the update")
+	nb := addrChangeBlocks(p, r, "C05-R8", false, true)
+	r.Count("address_change_blocks_C05", nb)
+	r.Floor("C05-R8", 2)
 }
 
 // implementations of an interface method among the loaded packages
